@@ -5,7 +5,7 @@
 (* for one start), on listings with adjacent, separated and overlapping    *)
 (* candidate occurrences.                                                  *)
 (***************************************************************************)
-EXTENDS JasmUniverse
+EXTENDS JasmUniverse, JasmObjdump
 CONSTANTS MaxListing
 
 I(m) == PIns(m, <<>>)
@@ -27,4 +27,20 @@ Listings == ListingsOver(Bodies, 0, MaxListing)
 DupAddr(body) == [n \in DOMAIN body |-> Ins(<<"0", "4", "8", "0", "4", "8">>[n], body[n][1], body[n][2])]
 DupListings == { DupAddr(s \o s) : s \in SeqsBetween(Bodies, 2, 3) }
 Universe == [patterns |-> SetToSeq(Patterns), listings |-> SetToSeq(Listings \cup DupListings)]
+
+\* listings as objdump prints a linked binary: several `Disassembly of section' headers and symbol labels BETWEEN
+\* the instructions; an occurrence may straddle them, and a shorter occurrence may lie inside a longer one
+Sym == {"a", "b", "S", "T", "L"}        \* instruction a / b, header .init, header .text, a label
+LineOf(x, n) == CASE x = "S" -> SectionLine(".init")
+                  [] x = "T" -> SectionLine(".text")
+                  [] x = "L" -> LabelLine("0000000000401000", "f")
+                  [] OTHER   -> InsnLine(AddrTable[n], <<"90">>, x, <<>>)
+SecTexts == { [n \in DOMAIN s |-> LineOf(s[n], n)] :
+              s \in { s \in SeqsBetween(Sym, 2, 4) : \E n \in DOMAIN s : s[n] \in {"S", "T", "L"} } }
+SecSeq == SetToSeq(SecTexts)
+PatternsS == { PAnd(<<POr(<<PAnd(<<I("a"), I("b"), I("a")>>), I("b")>>)>>), PAnd(<<POr(<<I("b"), PAnd(<<I("a"), I("b")>>)>>)>>),
+               PAnd(<<I("a"), I("b")>>), PAnd(<<T("a", 1, 3)>>), PAnd(<<POr(<<PAnd(<<I("a"), I("a")>>), I("a")>>), T("b", 0, 1)>>) }
+UniverseS == [patterns |-> SetToSeq(PatternsS),
+              listings |-> [n \in DOMAIN SecSeq |-> Stream(SecSeq[n])],
+              texts    |-> [n \in DOMAIN SecSeq |-> ListingLines(SecSeq[n])]]
 =============================================================================
